@@ -12,6 +12,7 @@ from .. import classify, drive, hist, listing, world
 from ..oracle import dirhash, ignoreref, refhash, xmlread
 
 VERBOSITY = False  # stdout of verify -dh -co is parsed / runs must be identical
+TECHNIQUE = 'runtime monitoring: reference-model oracle (independent evaluation of the directory-hash definition) plus metamorphic relations (rename, edit, permuted listing) on the tool outputs'
 LEVEL = "exploration"
 RULE = (
     "case = tree (depth 0-5, empty directories, directories holding only directories, fan-out up to 16, duplicate contents, "
